@@ -205,6 +205,24 @@ func printStats(st *HarnessStats) {
 	for _, k := range sortedKeys(st.UnsupportedMsgs) {
 		fmt.Printf("   unsupported x%d: %s\n", st.UnsupportedMsgs[k], k)
 	}
+	if debugForks {
+		type kv struct {
+			k string
+			n int64
+		}
+		var fs []kv
+		for k, n := range st.Stubs {
+			if strings.HasPrefix(k, "fork:") {
+				fs = append(fs, kv{k, int64(n)})
+			}
+		}
+		sort.Slice(fs, func(i, j int) bool { return fs[i].n > fs[j].n })
+		for i, f := range fs {
+			if i < 25 {
+				fmt.Printf("   %8d %s\n", f.n, f.k)
+			}
+		}
+	}
 	ids := sortedKeys(st.AssertIDs)
 	fmt.Printf("   asserts: ")
 	for _, k := range ids {
